@@ -122,6 +122,22 @@ pub fn make(op: Opcode, operands: &[usize], line: usize) -> Instructions {
     }
 }
 
+/// Check that every operand can be encoded in the width its opcode
+/// reserves for it ('make' would otherwise silently truncate it).
+pub fn operands_fit(op: Opcode, operands: &[usize]) -> bool {
+    match DEFINITIONS.get(&op) {
+        Some(def) => operands
+            .iter()
+            .zip(def.operand_widths)
+            .all(|(&o, &width)| match width {
+                2 => o <= u16::MAX as usize,
+                1 => o <= u8::MAX as usize,
+                _ => false,
+            }),
+        None => false,
+    }
+}
+
 /*
  * Helper function to decode the the operands of a bytecode instruction.
  * It is a counterpart of 'make'
